@@ -460,19 +460,12 @@ theorem wire_of_quantum (ne np nc : Nat) (w : Wire) (hw : w ∈ wiresN ne np nc)
   | p => exact ⟨⟨.p, i⟩, rfl⟩
   | c => exact absurd rfl ht
 
-/-- **a circuit and its renamed copy**: if `c2` is `c1` with registers renamed by `π` register by register, then the
-    renamed operation list of `c1` and the operation list of `c2` differ only by exchanges of neighbouring operations on
-    disjoint registers -/
-theorem RenamedBy.swapEquiv {π : Wire → Wire} {c1 c2 : Circuit} (h : RenamedBy π c1 c2)
+/-- on every quantum register (of the circuit or not) the renamed operation list of `c1` and the list of `c2` agree -/
+theorem RenamedBy.wires_q {π : Wire → Wire} {c1 c2 : Circuit} (h : RenamedBy π c1 c2)
     (h1 : ∀ o ∈ c1.ops, OpOK (wiresN c1.ne c1.np c1.nc) o) (h2 : ∀ o ∈ c2.ops, OpOK (wiresN c2.ne c2.np c2.nc) o) :
-    SwapEquiv (c1.ops.map (renOp π)) c2.ops := by
+    ∀ q, (c1.ops.map (renOp π)).filter (onReg q) = c2.ops.filter (onReg q) := by
   have hW2 : wiresN c2.ne c2.np c2.nc = wiresN c1.ne c1.np c1.nc := by rw [h.ne, h.np, h.nc]
-  have hne1 : ∀ o ∈ c1.ops.map (renOp π), o.qRegs ≠ [] := by
-    intro o ho
-    obtain ⟨o', _, rfl⟩ := List.mem_map.1 ho
-    exact qRegs_ne_nil _
-  have hw : ∀ q, (c1.ops.map (renOp π)).filter (onReg q) = c2.ops.filter (onReg q) := by
-    intro q
+  · intro q
     by_cases hq : Wire.ofQ q ∈ wiresN c1.ne c1.np c1.nc
     · obtain ⟨w, hw, hπ⟩ := h.surj _ hq
       have hwt : w.t ≠ .c := by
@@ -527,6 +520,18 @@ theorem RenamedBy.swapEquiv {π : Wire → Wire} {c1 c2 : Circuit} (h : RenamedB
         rw [← hW2]
         exact (h2 o ho).1 _ (by unfold opWires; exact List.mem_append_left _ (List.mem_map_of_mem hc))
       rw [e1, e2]
+
+/-- **a circuit and its renamed copy**: if `c2` is `c1` with registers renamed by `π` register by register, then the
+    renamed operation list of `c1` and the operation list of `c2` differ only by exchanges of neighbouring operations on
+    disjoint registers -/
+theorem RenamedBy.swapEquiv {π : Wire → Wire} {c1 c2 : Circuit} (h : RenamedBy π c1 c2)
+    (h1 : ∀ o ∈ c1.ops, OpOK (wiresN c1.ne c1.np c1.nc) o) (h2 : ∀ o ∈ c2.ops, OpOK (wiresN c2.ne c2.np c2.nc) o) :
+    SwapEquiv (c1.ops.map (renOp π)) c2.ops := by
+  have hne1 : ∀ o ∈ c1.ops.map (renOp π), o.qRegs ≠ [] := by
+    intro o ho
+    obtain ⟨o', _, rfl⟩ := List.mem_map.1 ho
+    exact qRegs_ne_nil _
+  have hw := h.wires_q h1 h2
   exact swapEquiv_of_wires _ _ hne1 hw (length_eq_of_wires _ _ hne1 (fun o _ => qRegs_ne_nil o) hw)
 
 /-- exchanging neighbouring operations on disjoint registers does not change the result, in every semantics in which
